@@ -3,6 +3,8 @@ encode and decode types.
 
 """
 
+import io
+import sys
 import hashlib
 import pickle
 from copy import copy
@@ -279,16 +281,22 @@ def _compile_files_cache(filenames,
     # bytes split differently over the files are parsed differently)
     # and the remaining compile options.
     key = [codec.encode('ascii')]
+    contents = []
 
     if isinstance(filenames, str):
         filenames = [filenames]
 
+    # Each file is read once, and compiled from what was read, as the
+    # specification stored under the key must be the one compiled from
+    # exactly the contents in the key, also if a file is modified
+    # while this function runs.
     for filename in filenames:
         with open(filename, 'rb') as fin:
             data = fin.read()
 
         key.append('{}:'.format(len(data)).encode('ascii'))
         key.append(data)
+        contents.append(data)
 
     choices = sorted([(location, sorted(choices.items(), key=repr))
                       for location, choices
@@ -300,7 +308,7 @@ def _compile_files_cache(filenames,
     compiled = _cache_load(cache, key)
 
     if compiled is None:
-        compiled = compile_dict(parse_files(filenames, encoding),
+        compiled = compile_dict(_parse_files_contents(contents, encoding),
                                 codec,
                                 any_defined_by_choices,
                                 numeric_enums)
@@ -308,6 +316,28 @@ def _compile_files_cache(filenames,
         cache[key] = hashlib.sha256(key + data).digest() + data
 
     return compiled
+
+
+def _parse_files_contents(contents, encoding):
+    """Same as :func:`~asn1tools.parse_files()`, but given the contents
+    of the files as bytes instead of their names.
+
+    """
+
+    string = ''
+
+    for data in contents:
+        if sys.version_info[0] < 3:
+            string += data
+        else:
+            with io.TextIOWrapper(io.BytesIO(data),
+                                  encoding=encoding,
+                                  errors='replace') as fin:
+                string += fin.read()
+
+        string += '\n'
+
+    return parse_string(string)
 
 
 def _cache_load(cache, key):
